@@ -113,7 +113,7 @@ class MoreInfoFromHeaderMixin:
 
         try:
             date = parsedate_to_datetime(value)
-        except (TypeError, ValueError):
+        except (TypeError, ValueError, OverflowError):
             return None
 
         if date.tzinfo is None:
@@ -131,4 +131,7 @@ class MoreInfoFromHeaderMixin:
         if referrer is None:
             return None
 
-        return URL(url=referrer)
+        try:
+            return URL(url=referrer)
+        except ValueError:  # e.g. "http://[": not a URL at all
+            return None
